@@ -14,7 +14,7 @@ from vlib import core
 
 THEOREMS = ["C05_merge_keys", "C05_select", "C05_conflicts", "C05_unused", "C05_spec", "C05_cross", "C05_cross_pass1", "C05_select_forms",
             "C05_static_select", "C05_static_select_level", "C05_static_other_args", "C05_unused_project",
-            "C05_old_refuted", "C05_lone_other_refuted", "C05_panic_old_refuted"]
+            "C05_old_refuted", "C05_lone_other_refuted", "C05_panic_old_refuted", "C05_accessor_current_locale"]
 PROPS = "theories/Props/C05.v"
 REGISTRY = {
     "level": "proof",
@@ -32,7 +32,7 @@ REGISTRY = {
             "modelled at top level only. A plural whose base key is not a Rust identifier (`in_one`/`in_other`) must be an InvalidKey "
             "error; a panic there is reported as a violation.",
     "engine": "coq",
-    "packages": [("h_plurals",)],
+    "packages": [("h_plurals",), ("h_ctx",)],
 }
 PRE = ("From Coq Require Import List NArith.\nImport ListNotations.\n"
        "From LI Require Import Base.StrOps Parser.Plurals Parser.PluralsCheck.\nOpen Scope N_scope.\n")
@@ -867,6 +867,9 @@ def run(ctx):
     if rtres["plural_macro_fail"]:
         core.violation(ctx, "t_plural", {"failing_input": rtres["plural_macro_fail"][0], "count": len(rtres["plural_macro_fail"]),
                                          "explanation": "td_plural!/td_plural_ordinal! does not return the ICU4X category"})
+    # reactive plural macros follow the locale of their context over operation histories (shared machinery of C16)
+    from checks import acc_common
+    acc_evidence = acc_common.run_family(ctx, "plural")
     corr = []
     if not ok:
         corr.append("theorem/audit: " + "; ".join(problems))
@@ -938,7 +941,7 @@ def run(ctx):
         "panics_blamed_on_non_identifier_base_key": len(panic_spec), "invalid_key_errors_checked": invalid_key_errors,
         "unobserved_levels": sum(1 for m in metas if not m["observed"]),
         "repo_agrees_with_pre_fix_model_on_sample": sum(1 for c in codes_old if c == 0), "pre_fix_sample": len(codes_old),
-        "input_distribution": hist, "audit_problems": problems,
+        "input_distribution": hist, "audit_problems": problems, "accessor_locale": acc_evidence,
     }, assumptions=[
         "CLDR plural data is an oracle: ICU4X compiled data (categories(), category_for) is an input of the model; it is "
         "independently re-stated in Runtime/CldrRules.v for en fr ru ar pl ja cy he only",
@@ -953,6 +956,9 @@ def replay(ctx, path):
     isolate.enter(ctx)
     """re-runs the stored failing input on the implementation (harness) and on the model (coqc) and prints both with the verdict"""
     obj = json.load(open(path))
+    from checks import acc_common
+    if acc_common.is_mine(obj):
+        return acc_common.replay(ctx, path)
     fi = obj.get("failing_input") or {}
     print(json.dumps({k: v for k, v in obj.items() if k != "more"}, indent=1)[:6000])
     bindir = core.cargo_build("h_plurals")
